@@ -437,3 +437,11 @@ Definition deps_coverb (g : graph) : bool :=
     (negb (memn f (entries g)) ||
      forallb (fun s : sym => negb (is_declared g s) || (fst s =? f)%nat || memn (fst s) (raw_deps (getf g f))) (entry_exports g f)))
     (seq 0 (nfiles g)).
+
+(* well-formedness of a linker dump: there is a runtime file, and import record targets,
+   part dependencies and user entry points are file indices *)
+Definition wf_graphb (g : graph) : bool :=
+  (0 <? nfiles g)%nat &&
+  forallb (fun fl => forallb (fun r => (fst r <? nfiles g)%nat) (f_recs fl) &&
+                     forallb (fun p => forallb (fun t => (t <? nfiles g)%nat) (p_deps p)) (f_parts fl)) (g_files g) &&
+  forallb (fun e => (e <? nfiles g)%nat) (g_user g).
